@@ -616,3 +616,44 @@ Theorem C03_every_published_range_inside : forall t,
               Forall (fun y => (fst (fst y) <= snd (fst y) <= blen t)%N) l.
 Proof. exact RangeProofs.analysis_total. Qed.
 Print Assumptions C03_every_published_range_inside.
+
+(* ------------------------------------------------------------------------------------------ *)
+(* FROM TEXT.  C03_no_false_positive takes "the text lexes to the program's tokens" (layout_of) as a
+   hypothesis.  With C06 conformance it is discharged for every rendering of a valid abstract program
+   (Proofs/RenderProofs.v, Proofs/PipelineText.v; the definitions are explained in Props/C04.v): every layout
+   - any whitespace gaps satisfying gaps_ok, comments in any token gap - of a valid program whose mandated
+   tree is well-typed gets NO diagnostic from the whole pipeline lex; parse; build; analyze; errors. *)
+From Spl Require Import Proofs.RenderProofs Proofs.PipelineText.
+
+Theorem C03_text_no_false_positive : forall p gaps t G,
+  prog_ok p = true -> aprog_valid p = true -> gaps_ok (flatten p) gaps -> render_kinds (flatten p) gaps = Some t ->
+  well_typed (expected p) G -> diagnostics t = Done [].
+Proof. exact text_no_false_positive. Qed.
+Print Assumptions C03_text_no_false_positive.
+
+(* ... in particular layout_of is inhabited by every such rendering *)
+Theorem C03_text_layout_of : forall p gaps t,
+  aprog_valid p = true -> gaps_ok (flatten p) gaps -> render_kinds (flatten p) gaps = Some t -> layout_of p t.
+Proof. exact text_layout_of. Qed.
+Print Assumptions C03_text_layout_of.
+
+(* non-vacuity: the example program ex_p (array types, reference parameters, recursion, a comment) in its
+   densest layout and in an odd one (tabs, CR LF, double blanks) *)
+Definition ex_odd_gaps : list text :=
+  map (fun i => nth (Nat.modulo i 3) [[9]; [13; 10; 32]; [32; 32]] []) (seq 0 (S (List.length (flatten ex_p)))).
+Example C03_ex_text_hyps :
+  prog_ok ex_p = true /\ aprog_valid ex_p = true /\
+  gaps_ok (flatten ex_p) (min_gaps None (flatten ex_p)) /\ gaps_ok (flatten ex_p) ex_odd_gaps /\
+  render_kinds (flatten ex_p) (min_gaps None (flatten ex_p))
+  = Some (str "type v=array[3]of int;proc p(ref a:v,n:int){var i:int;i:=a[n]+1;if(i<2)p(a,i);}proc main(){var x:v;var j:int;// note
+j:=0;while(j#3){x[j]:=-j;j:=j+1;}p(x,j*2);}").
+Proof. vm_compute. repeat split; reflexivity. Qed.
+Example C03_ex_text_diagnostics :
+  option_map diagnostics (render_kinds (flatten ex_p) (min_gaps None (flatten ex_p))) = Some (Done []) /\
+  option_map diagnostics (render_kinds (flatten ex_p) ex_odd_gaps) = Some (Done []).
+Proof. vm_compute. split; reflexivity. Qed.
+Example C03_ex_text_instance : forall t, render_kinds (flatten ex_p) ex_odd_gaps = Some t -> diagnostics t = Done [].
+Proof.
+  intros t Hr. apply (C03_text_no_false_positive ex_p ex_odd_gaps t ex_table); try (vm_compute; reflexivity); [exact Hr|].
+  change (expected ex_p) with ex_tree. exact (conj C03_ex_wf C03_ex_wt).
+Qed.
